@@ -39,6 +39,8 @@ TRUSTED_BASE = [
     "harness, line protocol, driver parser/printer",
 ]
 ASSUMPTIONS = [
+    "text-level importer model: register indices are plain ASCII digit strings (Python's int() additionally accepts signs, underscores and "
+    "non-ASCII digits; edited texts containing such tokens are not generated)",
     "quantifier: circuits over the 13 classes that class_to_name_mapping names (Hadamard, SigmaX/Y/Z, Phase, PhaseDagger, Identity, CNOT, CZ, "
     "ClassicalCNOT, ClassicalCZ, MeasurementCNOTandReset, MeasurementZ) and OneQubitGateWrapper over the one-qubit ones, registers of size 1; "
     "parameterised rotations are exported for drawing only (the importers know no parameters) and are outside the quantifier",
@@ -582,7 +584,9 @@ def run_text_stream(res, drv, rng, n):
         adds = cu.random_circuit(rng, ne, np_, nc, rng.randrange(0, 8))
         text = cu.build(ne, np_, nc, adds).to_openqasm()
         texts.append(text if rng.random() < 0.1 else mutate_text(rng, text))
-    texts = [t for t in texts if all(32 <= ord(ch) < 127 or ch in "\n\t" for ch in t)]
+    # Python's int() also accepts a sign and single underscores between digits ("e-0[0]" is register 0, "e1_0[0]" register 10);
+    # the model reads plain ASCII digit strings only, so such edits are outside its stated domain and are not generated
+    texts = [t for t in texts if all(32 <= ord(ch) < 127 or ch in "\n\t" for ch in t) and not re.search(r"[-+_]\d|\d_", t.replace("->", "  "))]
     lines = [f"c14.parsetext text={cu.pct_enc(t)}" for t in texts]
     reps = drv.batch(lines)
     for text, rep in zip(texts, reps):
